@@ -357,6 +357,12 @@ def points(name, info, quick):
         if lo < 0:               # the non-negative half (deb2 is only defined there)
             for j in range(2 if quick else 20):
                 out.append(('random-nonnegative', [rnd.uniform(1e-3, hi) for _ in range(n)]))
+    # tiny coordinates: intermediates (x^2, x^4, x^6, products) underflow to subnormals or to zero -- the value is still the formula's
+    for n in (2, 5):
+        for tiny in (1e-80, 1e-160):
+            if lo <= tiny <= hi:
+                out.append(('underflow', [tiny] * n))
+                out.append(('underflow', [tiny if i % 2 == 0 else round(0.5 * hi, 3) for i in range(n)]))
     # SCALE: many coordinates (a dimension-dependent shortcut, an accumulator type, a hard-coded length only show there)
     for n in ((64, 1000) if quick else (64, 257, 1000, 5000)):
         mins = MINIMA.get(name, (None, [], 0))[1]
@@ -382,6 +388,7 @@ def coq_admissible(name, info, c):
 
 
 def main():
+    hlib.prior_tasks()      # the formulas are observed in a process in which optimisation tasks have already run
     pl = hlib.payload() or {}
     trees = dict(pl.get('trees', {}))
     for name, info in pl.get('fallback', {}).items():      # functions T3 could not translate: oracle only
